@@ -65,3 +65,8 @@ package pac
 //@ ensures p.Mode == 6 ==> result.Scheme == "socks5"
 //@ ensures p.Mode == 4 ==> result.Scheme == "socks"
 //@ ensures p.Mode == 5 ==> result.Scheme == "socks4"
+
+// The package initialiser establishes the global invariants of this file.
+//@ func init
+//@ property C05 C14
+//@ modifies **
